@@ -294,7 +294,9 @@ class InlineTranslator:
             return None
 
         using_stms = rdp.get_statements_that_use(hpred)
-        if len(using_stms) != 1 or using_stms[0] == stm or self.has_anonymous_vars(hpred, using_stms[0].body):
+        if len(using_stms) != 1 or using_stms[0] == stm or using_stms[0].ast_type not in (ASTType.Rule, ASTType.Minimize):
+            return None
+        if self.has_anonymous_vars(hpred, using_stms[0].body):
             return None
 
         # result of aggregate must be inside head
